@@ -1,20 +1,20 @@
 SPECIFICATION LiveSpec
 CONSTANTS
-  Threads = {1, 2, 3}
-  Prog <- ProgOvf
-  HashOf <- HashSame
-  InitKeys <- Init2
-  N0 = 2
+  Threads = {1, 2}
+  Prog <- ProgInit2
+  HashOf <- HashId
+  InitKeys <- Init0
+  N0 = 0
   DCAP = 2
-  MaxNodes = 10
-  MaxTabs = 3
-  STRIDE = 4
+  MaxNodes = 6
+  MaxTabs = 2
+  STRIDE = 1
   MAXRES = 100
   STAMPCHECK = TRUE
   ACSTAMPCHECK = TRUE
   TRAVOFF = 0
   RETAINCHECK = TRUE
-  TT = 2
+  TT = 100
   MTC = 100
   UT = 6
   SMIN = 3
